@@ -29,7 +29,7 @@ Arguments sum_int : simpl never.
 Arguments sum_flt : simpl never.
 Arguments map2 : simpl never.
 Arguments cmp_flt : simpl never.
-Arguments eval_unop : simpl never.
+Arguments eval_unop !op !a : simpl nomatch.
 Arguments fdiv : simpl never.
 Arguments to_int !v : simpl nomatch.
 Arguments to_flt !v : simpl nomatch.
@@ -95,7 +95,7 @@ Ltac wp_compute k annf :=
      fparams flocals combine app map repeat length Nat.sub get set String.eqb Ascii.eqb Bool.eqb getsc
      getar getZ getD havoc forall_kind agree find_kind kind_ok same_shape normal brk ret args_safe
      arg_safe argvals argval wp_targets fname is_sc is_ar alen acols adt adata forall_rets slice_rows];
-  cbn [to_int to_flt truthy eval_cmp eval_binop is_flt orb binop_int binop_flt cmp_int coerce negb sum_cells].
+  cbn [to_int to_flt truthy eval_cmp eval_binop eval_unop is_flt orb binop_int binop_flt cmp_int coerce negb sum_cells].
 
 (* turn a boolean test on integers into a proposition (ZifyBool is deliberately not used: its
    preprocessing of every boolean hypothesis dominated the proof time) *)
